@@ -325,7 +325,7 @@ func c06(args []string) int {
 				keys = append(keys, n)
 			}
 		}
-		return append(keys, "nosuchchecker", "#nosuchtag", "")
+		return append(keys, "nosuchchecker", "#nosuchtag", "", "style", "diagnostic", "experimental", "#vprobeDiag", "#vprobePerf")
 	}
 	lists := func(keys []string) [][]string {
 		out := [][]string{nil, {}} // absent, explicit empty
@@ -347,7 +347,9 @@ func c06(args []string) int {
 		if tier == "quick" {
 			// tags + probes only as names (probes realise every tag set incl. security) + specials
 			keys = []string{"#diagnostic", "#style", "#performance", "#security", "#experimental", "#opinionated",
-				"vprobeDiag", "vprobeSec", "vprobeStyleOpinExp", "vprobePerf", "nosuchchecker", "#nosuchtag", ""}
+				"vprobeDiag", "vprobeSec", "vprobeStyleOpinExp", "vprobePerf", "nosuchchecker", "#nosuchtag", "",
+				// entries that are valid only in the other namespace: a bare tag word, a checker name behind '#'
+				"style", "#vprobeDiag"}
 		} else {
 			keys = keyAlphabet(reg, 1)
 		}
@@ -495,7 +497,7 @@ func F(a int, b int, big [4096]byte) int {
 	for _, in := range harness.Infos(nil) {
 		reg[in.Name] = in.Tags
 	}
-	keys := []string{"#diagnostic", "#style", "#performance", "#experimental", "#opinionated", "assignOp", "hugeParam", "paramTypeCombine", "nosuchchecker"}
+	keys := []string{"#diagnostic", "#style", "#performance", "#experimental", "#opinionated", "assignOp", "hugeParam", "paramTypeCombine", "nosuchchecker", "style", "#assignOp"}
 	var cfgs []selCfg
 	cfgs = append(cfgs, selCfg{}, selCfg{EnableAll: true})
 	for _, e := range keys {
